@@ -2,6 +2,7 @@
 from ..core import Family
 from .. import plevel
 from . import engine_common as ec
+PROPERTY_FILES = ["C01", "C01_Routes"]
 TRUSTED_BASE = ec.TB
 ASSUMPTIONS = ec.ASSUME
 RULE = ("case = propagator-level model + entry point (enumerate / first solution / minimize / maximize of a view, iterating); every "
@@ -11,3 +12,12 @@ FAMILIES = [
     Family("entries_random", "solve", ec.gen_models(ec.entry_any, 3000, 600000), nontrivial=ec.nontrivial_solve, prop_judge=plevel.judge_solve),
     Family("entries_structured", "solve", ec.structured, nontrivial=ec.nontrivial_solve, prop_judge=plevel.judge_solve),
 ]
+
+# Model-level posting routes (arithmetic/array/boolean/global/linear/reified API methods): structural and semantic
+# families of vlib/props/routes.py; their known classes are recorded under C01/C02/C10/C17 in known_findings.txt
+from . import routes as _routes
+FAMILIES += _routes.FAMILIES
+KNOWN_PIDS = _routes.KNOWN_PIDS
+SHARED_CLASSES = _routes.SHARED_CLASSES
+TRUSTED_BASE = TRUSTED_BASE + [t for t in _routes.TRUSTED_BASE if t not in TRUSTED_BASE]
+ASSUMPTIONS = ASSUMPTIONS + [a for a in _routes.ASSUMPTIONS if a not in ASSUMPTIONS]
